@@ -20,6 +20,7 @@ pub fn style_from(t: &mut Tape) -> Style {
         crlf: t.chance(1, 8),
         blank_lines: if t.chance(1, 5) { 2 + t.pick(5) as u8 } else { 0 },
         annotate: true,
+        block_comments: 0,
     }
 }
 
